@@ -965,6 +965,17 @@ def c13_phases(ctx):
         groups.append(walk_group("c13/e2e/%s/2-5" % alg, alg, [(4, 2), (4, 5)], [0, 31, 32, 33, 95, 96, 127], [3], light=True))
         groups.append(walk_group("c13/e2e/%s/5-2" % alg, alg, [(4, 5), (4, 2)], [0, 3, 4, 5, 63, 64, 127], [3], light=True))
         groups.append(walk_group("c13/e2e/%s/2-5-2" % alg, alg, [(8, 2), (4, 5), (2, 2)], [0, 3, 4, 127, 128, 129, 511], [3], light=True))
+        # counters BEYOND the lifetime (a foreign / damaged key file): no digit exists for them - refused, whichever bits are set
+        for tag, params in (("5", [(4, 5)]), ("2-5", [(4, 2), (4, 5)])):
+            T = sum(h for _, h in params)
+            below = T - params[0][1]
+            cmds = [cmd_keygen(alg, params, seed_hex("c13/beyond/%s/%s" % (alg, tag), alg))]
+            for c in [1 << T, (1 << T) + 1, (1 << 32) + 5, ((1 << 32) << below) + 5, (1 << (32 + below)) - 1, (1 << 40) + 3, (1 << 63) + 1, (1 << 64) - 1,
+                      (1 << 33) | 7, ((1 << 32) << below) | ((1 << params[0][1]) - 1) << below]:
+                meta = {"class": "counter_beyond_lifetime", "ctr": "%016x" % c}
+                cmds.append(cmd_sign(alg, key_at("sk", c), "c13b", meta=meta, plan="accept"))
+                cmds.append(cmd_lifetime(alg, key=key_at("sk", c), meta=meta))
+            groups.append({"name": "c13/beyond/%s/%s" % (alg, tag), "cmds": cmds, "cost": 1.0})
         if not quick:
             groups.append(walk_group("c13/e2e/%s/5-10" % alg, alg, [(8, 5), (4, 10)], [1023, 1024, 1025, 32767], [3], light=True))
             groups.append(walk_group("c13/e2e/%s/10-2" % alg, alg, [(8, 10), (4, 2)], [3, 4, 4095], [3], light=True))
@@ -1386,6 +1397,17 @@ def c15_groups(vi, quick, reps):
                 # unusable keys
                 cmds.append(cmd_sign_mut(alg, key_at("sk", total), {"cat": ["aa", {"rep": n, "byte": 0}]}, meta={"class": "counter_out_of_range"}))
                 cmds.append(cmd_sign_mut(alg, "00" * 8 + "ff" * 8 + "00" * n, {"cat": ["aa", {"rep": n, "byte": 0}]}, meta={"class": "wiped"}))
+                # with a valid aux buffer (filled by key generation) and with a fresh one: the same ordinary signature
+                if len(params) == 1:
+                    full = aux_full_len(alg, 2)
+                    cmds.append(cmd_keygen(alg, params, seed_hex(name, alg), aux={"rep": full + 8, "byte": 0}, out={"sk": "ask", "pk": "apk", "aux": "aux"},
+                                           meta={"class": "fresh_zero_roomy"}))
+                    for ai2, auxexpr in enumerate((slot("aux"), {"rep": full, "byte": 0})):
+                        c = cmd_sign_mut(alg, key_at("sk", 1), {"cat": [msg_hex(name + "/aux", 9), {"rep": n, "byte": 0}]}, out={"sig": "sig", "msg_out": "mo"},
+                                         meta={"class": "zero_trailer_with_aux", "aux": ai2})
+                        c["aux"] = auxexpr
+                        cmds.append(c)
+                        cmds.append(cmd_verify(alg, slot("mo"), slot("sig"), slot("pk")))
                 # the ordinary entry point of the same build
                 cmds.append(cmd_sign(alg, key_at("sk", 3 % total), "0102", out={"sig": "s2"}))
                 cmds.append(cmd_verify(alg, "0102", slot("s2"), slot("pk")))
@@ -1395,7 +1417,7 @@ def c15_groups(vi, quick, reps):
 
 def c15_phases(ctx):
     quick = ctx["tier"] == "quick"
-    configs = [(1, 200), (4, 64), (8, 3)] if quick else [(1, 200), (2, 200), (4, 64), (8, 64), (8, 3), (3, 100), (1, 1)]
+    configs = [(1, 200), (4, 64), (8, 3)] if quick else [(1, 200), (2, 200), (4, 64), (8, 64), (8, 3), (3, 100), (1, 1), (2, 0)]
     phases = []
     for vi, (threads, budget) in enumerate(configs):
         v = fv_variant(threads, budget)
